@@ -255,6 +255,21 @@ func (s *Synchronizer) isReverting(
 		return 0, false
 	}
 
+	// The header is an unverifiable claim: before any block is reverted on its account, fetch the
+	// block it announces and make sure it is self-consistent and carries that number and hash.
+	remoteBlock, err := s.dataSource.BlockByNumber(ctx, remoteHeight)
+	if err != nil {
+		return 0, false
+	}
+	if remoteBlock.Block.Number != remoteHeight || *remoteBlock.Block.Hash != *remoteHead.Hash {
+		return 0, false
+	}
+	if _, err := s.blockchain.SanityCheckNewHeight(
+		remoteBlock.Block, remoteBlock.StateUpdate, remoteBlock.NewClasses,
+	); err != nil {
+		return 0, false
+	}
+
 	// remoteHeight-1 would wrap around for a remote chain that only has block 0:
 	// every local block above 0 is then known to be orphaned, block 0 is compared by hash.
 	if remoteHeight == 0 {
